@@ -66,6 +66,9 @@ structure TimerPrims (σ Q TE Dv H T SD V IS X : Type) where
   timersEnabled : σ → Bool
   /-- `self._timers_enabled = …` -/
   setTimersEnabled : Bool → σ → σ
+  /-- `self.persistent = …` (the switch of the persistence add-on: `save_persistent_state` and the sync save of
+      `AddonPersistence.event` do nothing when it is off) -/
+  setPersistent : Bool → σ → σ
   /-- `duration is None` -/
   durIsNone : Dv → Bool
   /-- `duration == INF_TIME` -/
@@ -687,6 +690,11 @@ class TrTimer:
                 if ty != 'B':
                     raise U('_timers_enabled = <' + ty + '>')
                 return f'upd (fun sl => p.setTimersEnabled {t} sl.1)'
+            if p == 'self.persistent':
+                t, ty = self.expr(val, env)
+                if ty != 'B':
+                    raise U('persistent = <' + ty + '>')
+                return f'upd (fun sl => p.setPersistent {t} sl.1)'
             if p == 'self._state':
                 t, ty = self.expr(val, env)
                 if ty != 'Q':
